@@ -9,6 +9,7 @@ from .. import spec as sp
 from ..taps import TAP
 
 ID = 'C18'
+ANCHOR_FILES = ['solver/solver.py', 'solver/model.py', 'solver/lp_solver.py']
 LEVEL = 'exploration'
 EVAL_COUNTER = 'histories'
 RULE = ('random call histories of length 3-12 over {solve, get_results, get_results_short, get_results_long, get_debug} that '
